@@ -16,7 +16,7 @@ from engine.h import Cell, assume, check, cover, fail
 from harness import pcommon as pc
 
 from fst import FST
-from fst.match import (M, MAND, MBinOp, MCall, MConstant, MGlobal, MList, MName, MNOT, MOR, MQ, MQOPT, MQPLUS, MQSTAR, MTYPES, MAttribute)
+from fst.match import (M, MAND, MBinOp, MCall, MConstant, MGlobal, MList, MName, MNOT, MOR, MQ, MQOPT, MQPLUS, MQSTAR, MTAG, MTYPES, MAttribute)
 
 PROPERTY = 'C17'
 THOROUGH_SCALE = 2.0
@@ -252,6 +252,37 @@ def _p1_search(bi: int, qi: int, wi: int, which: int):
     cover('ok')
 
 
+NESTED = [
+    ('sub_star_inner_star', lambda: [MQSTAR(['a', MQSTAR('b')]), 'b'], r'(?:ab*)*b'),
+    ('sub_star_inner_plus', lambda: [MQSTAR([MQPLUS(...)]), 'b'], r'(?:.+)*b'),
+    ('sub_bounded_inner_opts', lambda: [MQ([MQOPT('a'), MQOPT('b')], min=0, max=2), 'b'], r'(?:a?b?){0,2}b'),
+    ('sub_plus_inner_lazy', lambda: [MQPLUS(['a', MQSTAR.NG(...)]), 'c'], r'(?:a.*?)+c'),
+    ('backref_after_star', lambda: [M(x=...), MQSTAR, MTAG('x')], r'(.).*\1'),
+    ('backref_to_quantified', lambda: [MQ(M(x=...), min=0, max=2), MTAG('x'), MQSTAR], r'(?:(.)){0,2}\1.*'),
+    ('backref_lazy', lambda: [MQPLUS.NG(M(x=...)), MTAG('x')], r'(?:(.))+?\1'),
+]
+
+
+def _mk_nested(ni, n):
+    name, mk, rx = NESTED[ni]
+
+    def k1n(x0: int, x1: int, x2: int, x3: int):
+        import re as _re
+        xs = [x0, x1, x2, x3][:n]
+        for x in [x0, x1, x2, x3][n:]:
+            assume(x == 97)
+        for x in xs:
+            assume(97 <= x <= 99)
+        seq = [chr(pc.pin(x, 97, 99)) for x in xs]      # letters pinned: the oracle is Python's own regular-expression engine on the concrete word
+        m = MGlobal(names=mk()).match(ast.Global(names=seq))
+        exp = _re.fullmatch(rx, ''.join(seq))
+        check((m is not None) == (exp is not None), 'nested_quantifier.accept_reject_differs_from_the_regular_expression:' + name, (rx, ''.join(seq), m is not None))
+        if m is not None and exp is not None and exp.groups() and 'x' in m.tags:
+            check(m.tags['x'] == exp.group(1), 'nested_quantifier.capture_differs_from_the_regular_expression:' + name, (rx, ''.join(seq), m.tags['x'], exp.group(1)))
+        cover('accept' if m is not None else 'reject')
+    return k1n
+
+
 def p2_reuse(o0: int, o1: int, o2: int):
     """pattern OBJECTS reused under several wrappers: the answers (match / no match, tags) of every use equal those of freshly built patterns, whatever
     was matched before with the shared parts (a match never depends on previous match calls)"""
@@ -317,3 +348,8 @@ for _wi, (_wn, _wf) in enumerate(WRAPS):
                       reset=pc.reset_globals))
 CELLS.append(Cell('P2.reuse', p2_reuse, 'P', ['fst.match.M._match', 'fst.match._MatchState.pop_merge_tagss'], '6 pattern objects sharing sub-patterns with static tags, used in a symbolic order of 3 (6^3 histories) on 6 targets: every answer equals that of freshly built patterns',
                   budget=600, per_path=60, reset=pc.reset_globals))
+for _ni, (_nn, _mk, _rx) in enumerate(NESTED):
+    for _n in (2, 3, 4):
+        CELLS.append(Cell(f'K1n.nested[{_nn},n={_n}]', _mk_nested(_ni, _n), 'K', FNM[:3],
+                          f'pattern {_nn} == regular expression {_rx!r} on every word of {_n} letters over {{a, b, c}} (letters pinned; oracle = Python re.fullmatch): quantifiers nested in sub-list quantifiers, back-references',
+                          tier='quick' if _n == 3 else 'thorough', budget=300, per_path=60))
